@@ -1,6 +1,14 @@
 (* m_wal.ml — driver commands for the file storage / undo log model (FileWal.v, C01)
      wal trace <d0 bytes> (<ops>)            -> the file system calls of the operation list
      wal recover <d0> (<ops>) <k> <j>        -> content recovered from crash cut (k, j)
+     wal recoverg <d0> (<ops>) <k> <j>       -> the same through the guarded recovery (recover_g): bytes | error
+     wal open <guard 0|1> <data> <log>       -> recovery of ARBITRARY files (a log the storage did not write):
+                                                guard 1: recover_g -> bytes | error
+                                                guard 0: recover -> bytes, or `beyond` when a record lies beyond the
+                                                current end of the data (the sparse extension is not modelled here)
+     wal rcalls <guard 0|1> <drop 0|1> <data> <log>  -> the file system calls of the recovery of these files
+                                                (recovery_calls; drop 1: as issued by Drop = no repair, then flush),
+                                                followed by `error` when the guard fires
    ops: (w <pos> <bytes>) | (r <len>) | f *)
 open Model
 open Util
@@ -32,4 +40,21 @@ let handle (cmd : string) (args : sexp list) : string =
     let cs = trace walrev_fixed st (List.map op_of ops) in
     let c = crash st cs (nat_of_hex k) (nat_of_hex j) in
     hex_of_bytes (recover walrev_fixed c).data
+  | "recoverg", [A d0; L ops; A k; A j] ->
+    let st = st_of (bytes_of_hex d0) in
+    let cs = trace walrev_fixed st (List.map op_of ops) in
+    let c = crash st cs (nat_of_hex k) (nat_of_hex j) in
+    (match recover_g walrev_fixed c with Some r -> hex_of_bytes r.data | None -> "error")
+  | "open", [A g; A d; A w] ->
+    let st = { data = bytes_of_hex d; wal = bytes_of_hex w } in
+    (match recover_g walrev_fixed st, g with
+     | Some r, "1" -> hex_of_bytes r.data
+     | None, "1" -> "error"
+     | Some _, _ -> hex_of_bytes (recover walrev_fixed st).data
+     | None, _ -> "beyond")
+  | "rcalls", [A g; A drop; A d; A w] ->
+    let st = { data = bytes_of_hex d; wal = bytes_of_hex w } in
+    let (cs, ok) = recovery_calls (g = "1") st in
+    let cs = if ok && drop = "1" then cs @ [WalSetLen O] else cs in
+    String.concat " " (List.map str_sys cs) ^ (if ok then "" else " error")
   | _ -> failwith ("wal: bad command " ^ cmd)
